@@ -24,7 +24,7 @@ from . import exprsem, relmodel
 from .relmodel import Tab
 from .symx import SymInt, Skip, zint
 
-UNARY = ("calc", "proj", "sel", "dedup", "sort", "slice", "mat", "xfer", "tag")
+UNARY = ("calc", "proj", "sel", "dedup", "sort", "slice", "mat", "xfer", "tag", "proc")
 
 
 @dataclasses.dataclass(frozen=True)
@@ -79,6 +79,16 @@ class Env:
         self.in_history = False
         self.history_done = {}
         self.decoys = {}
+
+    def processor(self):
+        """The Processor (hooks evaluating for real, lazy transfer payloads where the contract allows) behind "proc" nodes."""
+        if getattr(self, "_processor", None) is None:
+            from . import symproc
+
+            self.proc_log = []
+            self.proc_db = symproc.SymDB(self)
+            self._processor = symproc.make_processor(self.proc_db, self.proc_log, lazy=True)
+        return self._processor
 
     def val(self, v):
         if isinstance(v, str):
@@ -184,7 +194,7 @@ def expression_history(env, *nodes):
                 pass
 
 
-_OPS = ("leaf", "calc", "proj", "sel", "dedup", "sort", "slice", "chain", "join", "mat", "xfer", "tag")
+_OPS = ("leaf", "calc", "proj", "sel", "dedup", "sort", "slice", "chain", "join", "mat", "xfer", "tag", "proc")
 _USER_MARKER = []
 
 
@@ -326,6 +336,9 @@ def _build(node, env, memo):
         r = build(node[1], env, memo).transferred_to(env.engines[node[2]])
     elif op == "tag":
         r = user_marker_class()(target=build(node[1], env, memo))
+    elif op == "proc":
+        # the child tree as returned by an earlier Processor.process (transfers carry payloads; lazy ones where the hook may)
+        r = env.processor().process(build(node[1], env, memo))
     else:
         raise TypeError(f"bad program node {node!r}")
     memo[key] = r
@@ -356,7 +369,7 @@ def _sem_seq(node, env, prefer):
     sqlm = getattr(env, "sql_mode", False)
     if op == "leaf":
         return env.tables[node[1]]
-    if op in ("mat", "xfer", "tag"):
+    if op in ("mat", "xfer", "tag", "proc"):
         return _sem_seq(node[1], env, prefer)
     if op == "chain":
         a, b = _sem_seq(node[1], env, prefer), _sem_seq(node[2], env, prefer)
@@ -560,7 +573,7 @@ def pyeval(node, leafrows, bind, tags, prefer="l"):
     op = node[0]
     if op == "leaf":
         return [dict(r) for r in leafrows[node[1]]]
-    if op in ("mat", "xfer", "tag"):
+    if op in ("mat", "xfer", "tag", "proc"):
         return pyeval(node[1], leafrows, bind, tags, prefer)
     if op == "chain":
         return pyeval(node[1], leafrows, bind, tags, prefer) + pyeval(node[2], leafrows, bind, tags, prefer)
@@ -634,6 +647,8 @@ def fmt(node):
         return f"{fmt(node[1])}.to[{node[2]}]"
     if op == "tag":
         return f"{fmt(node[1])}.tag"
+    if op == "proc":
+        return f"{fmt(node[1])}.processed"
     return repr(node)
 
 
@@ -698,7 +713,7 @@ def cols_of(node, leafcols):
     op = node[0]
     if op == "leaf":
         return frozenset(leafcols[node[1]])
-    if op in ("mat", "xfer", "tag"):
+    if op in ("mat", "xfer", "tag", "proc"):
         return cols_of(node[1], leafcols)
     if op == "chain":
         a, b = cols_of(node[1], leafcols), cols_of(node[2], leafcols)
